@@ -25,7 +25,8 @@ def tree_key(seed, tier, replay):
     for f in sorted(glob.glob(os.path.join(D.HARNESS, "**", "*.go"), recursive=True)) + \
             sorted(glob.glob(os.path.join(D.COQ, "theories", "Corr", "World*.v"))) + \
             sorted(glob.glob(os.path.join(D.COQ, "theories", "Model", "World.v"))) + \
-            [os.path.join(D.VERIF, "KNOWN_FINDINGS.json")] + sorted(glob.glob(os.path.join(D.VERIF, "findings.d", "*.json"))):
+            [os.path.join(D.VERIF, "KNOWN_FINDINGS.json")] + sorted(glob.glob(os.path.join(D.VERIF, "findings.d", "*.json"))) + \
+            sorted(glob.glob(os.path.join(D.VERIF, "corpus", "WORLD", "*.json"))):
         try:
             h.update(open(f, "rb").read())
         except OSError:
